@@ -162,7 +162,17 @@ func runC11(c *fw.Ctx) {
 			for w := 0; w < writes && !p.failed; w++ {
 				if r.Chance(3, 4) {
 					path := genWritePath(c, r, root)
-					c11Set(p, root, path, c11Value(p, root))
+					v := c11Value(p, root)
+					if cur, st := model.Resolve(root, path); st == model.Resolved && r.Chance(1, 5) {
+						// overwrite a slot with an equal but distinct value: the new instance (not the old one) must be there afterwards
+						if cur.Ref != nil {
+							v = model.Ref(p.h.FromSpec(cur.Ref.ToSpec()))
+						} else {
+							v = cur
+						}
+						c.Count("equal_value_overwrites")
+					}
+					c11Set(p, root, path, v)
 				} else {
 					// UnsetTF: a resolvable path, a corruption of one, or a path that does not fit
 					paths, _ := model.AllPaths(root, 200)
